@@ -67,7 +67,7 @@ def run_cases(text, profile='release', timeout=600, features=()):
     exe = build(profile, features)
     p = subprocess.run([exe], input=text.encode(), stdout=subprocess.PIPE, stderr=subprocess.PIPE, timeout=timeout)
     out = {}
-    for line in p.stdout.decode().splitlines():
+    for line in p.stdout.decode().split('\n'):
         if not line.strip(): continue
         r = json.loads(line)
         if 'case' in r: out[r['case']] = r
